@@ -46,7 +46,8 @@ func VerifC12_CompactPreservesView() {
 	// file numbers follow creation order, or run against it: databases written before the engine kept its numbering
 	// across restarts hold newer files with smaller numbers; the creation timestamp in the name tells the age
 	restarted := vsym.IntRange("numbering", 0, 1) == 1
-	emptyValues := vsym.IntRange("emptyValues", 0, 1) == 1
+	// all values empty instead of one symbolic byte: with two files in the quick tier, with two or three in thorough
+	emptyValues := (nf == 2 || vsym.Thorough()) && vsym.IntRange("emptyValues", 0, 1) == 1
 	var files []fileSpec
 	for f := 0; f < nf; f++ {
 		fs := fileSpec{level: vsym.IntRange("level", 0, 1), seq: f + 1, ts: 1000 + f}
@@ -141,11 +142,12 @@ func VerifC12_CompactPreservesView() {
 			}
 		}
 	}
-	qi := vsym.IntRange("qi", 0, 1)
-	gotLive := best[qi] != nil && !best[qi].tomb
-	vsym.Assert(gotLive == live[qi], "compaction changed whether a key is live (lost or resurrected)")
-	if gotLive && live[qi] {
-		vsym.Assert(vsym.EqBytes(best[qi].val, val[qi]), "compaction changed a key's value (older version won)")
+	for qi := 0; qi < 2; qi++ {
+		gotLive := best[qi] != nil && !best[qi].tomb
+		vsym.Assert(gotLive == live[qi], "compaction changed whether a key is live (lost or resurrected)")
+		if gotLive && live[qi] {
+			vsym.Assert(vsym.EqBytes(best[qi].val, val[qi]), "compaction changed a key's value (older version won)")
+		}
 	}
 	vsym.Reach("done")
 }
